@@ -62,15 +62,31 @@ theorem alpha_not_delim {c : Char} (h : isAsciiAlpha c = true) : isNetlocDelim c
 
 /-! ## the hypotheses on the pieces -/
 
-/-- an authority text: none of `/ ? #` (it would end the authority), no tab / CR / LF
-(`urlsplit` deletes them) -/
-def NetlocChars (nl : Str) : Prop :=
+/-- an authority text as far as `_splitnetloc` is concerned: none of `/ ? #` (it would end the
+authority), no tab / CR / LF (`urlsplit` deletes them) -/
+def NetlocSyntax (nl : Str) : Prop :=
   ∀ c ∈ nl, isNetlocDelim c = false ∧ isUnsafeUrlChar c = false
+
+/-- an authority text that `urlsplit` accepts as it stands: `NetlocSyntax`, and no character
+whose NFKC form holds one of `/ ? # @ :` (`_checknetloc` raises `ValueError` on those:
+`urlHost_lead_nfkc`) -/
+def NetlocChars (nl : Str) : Prop :=
+  ∀ c ∈ nl, isNetlocDelim c = false ∧ isUnsafeUrlChar c = false ∧ nfkcDelim c = false
+
+theorem NetlocChars.syntax {nl : Str} (h : NetlocChars nl) : NetlocSyntax nl :=
+  fun c hc => ⟨(h c hc).1, (h c hc).2.1⟩
+
+theorem NetlocChars.nfkc {nl : Str} (h : NetlocChars nl) : nfkcRejects nl = false := by
+  unfold nfkcRejects
+  rw [List.any_eq_false]
+  intro c hc
+  simp [(h c hc).2.2]
 
 /-- what follows the authority: nothing, or something starting with `/`, `?` or `#` -/
 def RestOk (rest : Str) : Prop := ∀ c, rest.head? = some c → isNetlocDelim c = true
 
 instance (nl : Str) : Decidable (NetlocChars nl) := by unfold NetlocChars; infer_instance
+instance (nl : Str) : Decidable (NetlocSyntax nl) := by unfold NetlocSyntax; infer_instance
 instance (rest : Str) : Decidable (RestOk rest) := by
   unfold RestOk
   cases rest with
@@ -152,7 +168,7 @@ theorem netloc_of_some {o : Option SplitResult} {r : SplitResult} (h : o = some 
     o.map (·.netloc) = some r.netloc := by subst h; rfl
 
 /-- `scheme://authority rest` -/
-theorem urlsplit_scheme (sc nl rest : Str) (hsc : AlphaProto sc) (hnl : NetlocChars nl)
+theorem urlsplit_scheme (sc nl rest : Str) (hsc : AlphaProto sc) (hnl : NetlocSyntax nl)
     (hrest : RestOk rest) :
     (urlsplit (sc ++ ':' :: '/' :: '/' :: (nl ++ rest)) []).map (·.netloc) =
       if netlocOk nl then some nl else none := by
@@ -184,7 +200,7 @@ theorem urlsplit_scheme (sc nl rest : Str) (hsc : AlphaProto sc) (hnl : NetlocCh
     cases hok : netlocOk nl <;> simp
 
 /-- `//authority rest` -/
-theorem urlsplit_relative (nl rest : Str) (hnl : NetlocChars nl) (hrest : RestOk rest) :
+theorem urlsplit_relative (nl rest : Str) (hnl : NetlocSyntax nl) (hrest : RestOk rest) :
     (urlsplit ('/' :: '/' :: (nl ++ rest)) []).map (·.netloc) =
       if netlocOk nl then some nl else none := by
   have e1 : '/' :: '/' :: (nl ++ rest) = ('/' :: ('/' :: nl)) ++ rest := by simp
@@ -209,7 +225,8 @@ theorem alphaProto_http : AlphaProto ['h', 't', 't', 'p'] := by decide
 
 theorem urlHost_of_netloc {url nl : Str}
     (h : (urlsplit (safeArg url) []).map (·.netloc) = if netlocOk nl then some nl else none) :
-    urlHost url = if netlocOk nl then .ok (hostname nl) else .error .valueError := by
+    urlHost url =
+      if netlocOk nl && !nfkcRejects nl then .ok (hostname nl) else .error .valueError := by
   unfold urlHost safeUrlsplit
   cases hu : urlsplit (safeArg url) [] with
   | none =>
@@ -223,16 +240,16 @@ theorem urlHost_of_netloc {url nl : Str}
     · rw [hok] at h; simp at h
     · rw [hok] at h
       simp only [Option.map_some, if_true, Option.some.injEq] at h
-      simp [hostOf, h]
+      cases hn : nfkcRejects nl <;> simp [hostOf, h, hn]
 
 /-- **The authority is found again.**  Whatever the lead (`scheme://` with an alphabetic
 scheme, `//`, nothing) and whatever follows the authority, the hostname that
 `safe_urlsplit(url).hostname` yields is `.hostname` of the authority text; the bracket check
-of `urlsplit` on that text is the only source of `ValueError`. -/
-theorem urlHost_lead (l : Lead) (nl rest : Str) (hl : l.Ok (nl ++ rest)) (hnl : NetlocChars nl)
+and the NFKC check of `urlsplit` on that text are the only sources of `ValueError`. -/
+theorem urlHost_lead' (l : Lead) (nl rest : Str) (hl : l.Ok (nl ++ rest)) (hnl : NetlocSyntax nl)
     (hrest : RestOk rest) :
     urlHost (l.str ++ nl ++ rest) =
-      if netlocOk nl then .ok (hostname nl) else .error .valueError := by
+      if netlocOk nl && !nfkcRejects nl then .ok (hostname nl) else .error .valueError := by
   apply urlHost_of_netloc
   cases l with
   | scheme sc =>
@@ -259,6 +276,23 @@ theorem urlHost_lead (l : Lead) (nl rest : Str) (hl : l.Ok (nl ++ rest)) (hnl : 
       simp [httpSep]
     rw [e2]
     exact urlsplit_scheme _ nl rest alphaProto_http hnl hrest
+
+/-- … for an authority without NFKC look-alikes of the delimiters (`NetlocChars`) the bracket
+check is the only source of `ValueError` … -/
+theorem urlHost_lead (l : Lead) (nl rest : Str) (hl : l.Ok (nl ++ rest)) (hnl : NetlocChars nl)
+    (hrest : RestOk rest) :
+    urlHost (l.str ++ nl ++ rest) =
+      if netlocOk nl then .ok (hostname nl) else .error .valueError := by
+  rw [urlHost_lead' l nl rest hl hnl.syntax hrest, hnl.nfkc]
+  simp
+
+/-- … and an authority that holds one makes `urlsplit` raise, whatever else it holds:
+`http://ａ／b.com/` (U+FF0F FULLWIDTH SOLIDUS) is a `ValueError`, not the host `ａ／b.com` -/
+theorem urlHost_lead_nfkc (l : Lead) (nl rest : Str) (hl : l.Ok (nl ++ rest))
+    (hnl : NetlocSyntax nl) (hrest : RestOk rest) (hx : nfkcRejects nl = true) :
+    urlHost (l.str ++ nl ++ rest) = .error .valueError := by
+  rw [urlHost_lead' l nl rest hl hnl hrest, hx]
+  simp
 
 /-! ## `.hostname` of `userinfo@host:port` -/
 
